@@ -124,6 +124,23 @@ def check_C01(ctx, replay=None):
     accepted, nlines, tres, info = _trace_validate(ctx, trace, "c01")
     if not accepted:
         add_violation(ctx, "c01:trace-rejected", info, {"trace": info.get("trace"), "line": info.get("line")})
+    binding = []
+    if accepted and not replay:
+        # binding self-test: the same trace with one hook's event removed, or one recorded field changed, must be rejected
+        tampers = [("drop-fsync", lambda d: d.get("e") == "fsync", lambda d: None),
+                   ("read-not-found", lambda d: d.get("e") == "read" and d.get("found") == 1, lambda d: dict(d, found=0))]
+        if not quick:
+            tampers.append(("published-beyond-synced", lambda d: d.get("e") == "published", lambda d: dict(d, units=d["units"] + 1)))
+        for name, pick, change in tampers:
+            t = core.tamper_trace(ctx, trace, "tampered-%s.ndjson" % name, pick, change)
+            if t is None:
+                continue
+            tr = run_tlc(ctx, "TraceDurability", "TraceDurability.cfg", workers=1, deque=True, timeout=1800, xmx="6g",
+                         env={"TRACE": t}, tags=(), coverage=False, expect_error=True)
+            if tr.ok:
+                raise core.ToolError("binding self-test failed: the recorded trace with '%s' applied is still accepted by "
+                                     "TraceDurability.tla (trace validation does not constrain that event)" % name)
+            binding.append(name)
     cov = _store_cov(ctx, ex, sim, hr.stats.get("runs", 0), hr,
                      "TLC: Durability.tla (write, reply, fsync, publish, per-segment watch, acknowledgement, rollover sub-steps, "
                      "two-step reader lookups) explored exhaustively for 3 transactions / 2 segments with AckedDurable, "
@@ -135,6 +152,7 @@ def check_C01(ctx, replay=None):
                      "trace is validated by TLC against TraceDurability.tla with every invariant evaluated at every line.")
     cov["trace_lines_validated"] = nlines
     cov["trace_accepted"] = accepted
+    cov["binding_selftests_rejected"] = binding
     cov["max_append_ms"] = hr.stats.get("max_append_ms")
     return finish(ctx, "model_checking", cov,
                   ["fsync is observed at the seglog Writer::sync hook right after File::sync_data returns",
